@@ -55,7 +55,16 @@ def do_call(pp, w, handles, recipe, call):
     op = call[0]
     try:
         if op == 'uses':
-            recipe.uses(w[call[1]])           # always the outside object / stand-in
+            o = w[call[1]]                    # always the outside object / stand-in
+            form = call[2] if len(call) > 2 else 'arg'
+            if form == 'arg':
+                recipe.uses(o)
+            elif form == 'list':
+                recipe.uses([o])
+            elif form == 'tuple':
+                recipe.uses((o,))
+            else:
+                recipe.uses(x for x in [o])
         elif op == 'create_container':
             handles[call[1]] = recipe.create_container(call[1], '10 mL', [(w['water'], '2 mL')])
         elif op == 'create_solution':
@@ -181,7 +190,7 @@ def variants(action, args, nsteps):
     """All concrete calls for a model action; variant 0..n, all must show the labelled outcome."""
     k = nsteps
     if action in ('Uses', 'ClashUses'):
-        return [('uses', args[0])]
+        return [('uses', args[0], f) for f in ('arg', 'list', 'tuple', 'generator')]
     if action == 'ClashCreate':
         n = args[0]
         return [('create_container', n), ('create_solution', n, None), ('create_solution_from', n, 'A')]
